@@ -1,10 +1,11 @@
 (* C17 -- static evaluation: perspective-antisymmetric, colour-blind, reads the boards only.
    The position is stored from the mover's point of view, so "colours swapped and board mirrored top to bottom"
    (with the other side to move) is the SAME eight bitboards with the turn flag negated: colour-blindness is the
-   turn-independence contained in C17_eval_reads_boards_only.  The numeric bound (|eval| < MATE_SCORE - MAX_DEPTH
-   for at most 16 men per side) is checked by the correspondence run on every generated position, not proved. *)
+   turn-independence contained in C17_eval_reads_boards_only.  The numeric bound is proved from the tables the
+   translator reads out of eval.rs / pst.rs (every entry within +-200, piece values within 0..900), at most 16 men
+   a side, one kind per square and the phase formula: |eval| <= 400000 < MATE_SCORE - MAX_DEPTH = 999872. *)
 From Coq Require Import NArith ZArith List Bool.
-From Rawr Require Import Consts Bits Magic Position Eval EvalFacts.
+From Rawr Require Import Consts Bits Magic Position Eval EvalFacts Abs BoundFacts.
 Local Open Scope Z_scope.
 
 (* move counters, castling rights and files, en-passant state, key, Chess960 flag and turn flag are never read *)
@@ -19,5 +20,19 @@ Proof. exact eval_antisym. Qed.
 Example C17_example : eval (flip startpos) = - eval startpos /\ BB startpos.
 Proof. split; [vm_compute; reflexivity|]. unfold BB. vm_compute. repeat split. Qed.
 
+(* strictly inside the range reserved for mate scores, on every position of the domain D ... *)
+Theorem C17_eval_inside_mate_range : forall p, in_D p = true -> - (MATE_SCORE - MAX_DEPTH) < eval p < MATE_SCORE - MAX_DEPTH.
+Proof. exact eval_bounded_on_D. Qed.
+
+(* ... and more generally whenever the boards are below 2^64, hold one kind per square, the two colour boards are
+   disjoint and cover exactly the piece boards, and neither side has more than 16 men *)
+Theorem C17_eval_bounded : forall p, Men16 p -> Z.abs (eval p) <= 400000.
+Proof. exact eval_bounded. Qed.
+
+Example C17_bound_example : in_D startpos = true /\ in_D (MakeMove.makenull startpos) = true.
+Proof. split; vm_compute; reflexivity. Qed.
+
 Print Assumptions C17_eval_reads_boards_only.
+Print Assumptions C17_eval_inside_mate_range.
+Print Assumptions C17_eval_bounded.
 Print Assumptions C17_eval_antisym.
